@@ -17,7 +17,7 @@ func init() {
 		Technique: "bounded exhaustive exploration of set/set-nil/get/copy/grow operation sequences over several owners and keys on the real objects, compared after every step with a map-per-owner reference model; stored-state growth measured through the objects' %#v form",
 		Rule: "family owners: starting from a 3-column table (12 owners: table, column 0/1/3(last) each via a handle taken before any growth AND via a fresh lookup, column 2, attached row, detached row, body cell, header cell) or from an empty table (table, column 0 via handle and fresh lookup, detached row) x 3 keys x {v1,v2,nil} plus table growth by 3 and by 11 columns, all sequences to depth 3 (thorough 4); " +
 			"family copies: a cell, by-value copies of it made at any point (c := *cell; range copy), and one Cell value added to two rows, x 3 keys x {v1,v2,nil}, all sequences to depth 4 (thorough 5); " +
-			"family keys: one owner x 8 keys (equal values of distinct types, two pointers, a struct) x {v1,v2,nil} to depth 3; after EVERY step every owner is read for every key; non-trivial = sequence with an overwrite, a nil-set, a copy or a growth; distinct by reference state",
+			"family many-keys: a cell or table carrying 6..10 properties, read back in full (incl. a missing key) BEFORE a by-value copy, then <=2 sets on either side; family keys: one owner x 8 keys (equal values of distinct types, two pointers, a struct) x {v1,v2,nil} to depth 3; after EVERY step every owner is read for every key; non-trivial = sequence with an overwrite, a nil-set, a copy or a growth; distinct by reference state",
 		Assumptions: []string{"keys are comparable and non-nil (others panic by design)", "stored-state size is read from the %#v form (number of chain links); if that form cannot be parsed the growth clause is skipped, not failed"},
 		QuickBudget: 120 * time.Second, ThoroughBudget: 20 * time.Minute,
 		Run: runC12,
@@ -351,6 +351,86 @@ func runC12(x *X) {
 		if nt {
 			x.Nontrivial(fmt.Sprint(c.path))
 		}
+	})
+
+	// ---- family many-keys: owners carrying many properties (look-up structures may change shape with size),
+	// read in full BEFORE being copied by value, then modified on either side
+	x.Explore("many-keys", ExploreOpts{ShardDepth: 2, Bound: "cell or table with 6..10 keys; full read-back incl. a missing key; by-value copy (cells); then <=2 sets (existing key / nil / new key) on either side"}, func(c *Chooser) {
+		nk := 6 + c.Choose(5)
+		onTable := c.Choose(3) == 2
+		t := tabular.New()
+		t.AddRowItems("a")
+		cell, _ := t.CellAt(tabular.CellLocation{Row: 1, Column: 1})
+		var keys []interface{}
+		var keyNames []string
+		for i := 0; i < nk+1; i++ { // the last one is never set initially
+			keys = append(keys, fmt.Sprintf("k%d", i))
+			keyNames = append(keyNames, fmt.Sprintf("k%d", i))
+		}
+		var first tabular.PropertyOwner = cell
+		name := "cell"
+		if onTable {
+			first, name = t, "table"
+		}
+		base := &pOwner{name: name, get: func() tabular.PropertyOwner { return first }, model: map[interface{}]interface{}{}}
+		if !onTable {
+			base.links = cellLinks(func() *tabular.Cell { return cell })
+		} else {
+			base.links = tableLinks(t)
+		}
+		for i := 0; i < nk; i++ {
+			first.SetProperty(keys[i], i)
+			base.model[keys[i]] = i
+		}
+		c.Logf("%s with %d properties k0..k%d; read all of them and the missing k%d", name, nk, nk-1, nk)
+		owners := []*pOwner{base}
+		tags := []string{"many_keys"}
+		if !c12CheckAll(x, owners, keys, keyNames, tags, "after the initial sets") {
+			return
+		}
+		if !onTable {
+			cp := *cell
+			cpp := &cp
+			m2 := map[interface{}]interface{}{}
+			for k, v := range base.model {
+				m2[k] = v
+			}
+			c.Logf("copy := *cell   // by-value copy after the full read-back")
+			owners = append(owners, &pOwner{name: "copy", get: func() tabular.PropertyOwner { return cpp }, model: m2, links: cellLinks(func() *tabular.Cell { return cpp })})
+			tags = append(tags, "cell_copied", "set_while_cell_copies_exist")
+		}
+		for step := 0; step < 2; step++ {
+			k := c.Choose(1 + len(owners)*4)
+			if k == 0 {
+				break
+			}
+			k--
+			o := owners[k/4]
+			x.Transition(1)
+			switch k % 4 {
+			case 0:
+				c.Logf("%s.SetProperty(k0, changed)   // the oldest key", o.name)
+				o.get().SetProperty(keys[0], "changed")
+				o.model[keys[0]] = "changed"
+			case 1:
+				c.Logf("%s.SetProperty(k%d, changed)   // the newest key", o.name, nk-1)
+				o.get().SetProperty(keys[nk-1], "changed2")
+				o.model[keys[nk-1]] = "changed2"
+			case 2:
+				c.Logf("%s.SetProperty(k3, nil)", o.name)
+				o.get().SetProperty(keys[3], nil)
+				delete(o.model, keys[3])
+			case 3:
+				c.Logf("%s.SetProperty(k%d, new)   // a key never set before", o.name, nk)
+				o.get().SetProperty(keys[nk], "new")
+				o.model[keys[nk]] = "new"
+			}
+			if !c12CheckAll(x, owners, keys, keyNames, tags, fmt.Sprintf("after step %d", step+1)) {
+				return
+			}
+		}
+		x.State(modelKey(owners) + fmt.Sprint(nk, onTable))
+		x.Nontrivial(fmt.Sprint(c.path))
 	})
 
 	// ---- family keys
